@@ -12,7 +12,7 @@ From Coq Require Import List ZArith NArith Bool.
 From BBS Require Import Common.Sx Buffer.Source Buffer.Validate Buffer.Convert Buffer.ErrHandler
   Buffer.StreamProofs Buffer.ValidateProofs Buffer.ErrHandlerProofs Buffer.ClosedOnceProofs
   Buffer.ErrHandlerStackProofs Buffer.StackRuleProofs Buffer.ValidateReaderProofs Buffer.ConvertProofs
-  Buffer.EHFullCarry Buffer.EHFullReader Buffer.EHFullMethods Buffer.EHFullStack Buffer.EHFullPrefix Buffer.EHFullExact Buffer.EHFullStackExact Buffer.EHFullStacking Buffer.EHFullCompleted Buffer.EHFullPartial Buffer.EHFullTrace Buffer.EHFullRuns Buffer.EHFullRetry Buffer.EHFullMon Buffer.EHFullMon3 Buffer.EHFullMonS Buffer.EHFullMonR Run.R09 Run.R16 Run.R16Proofs.
+  Buffer.EHFullCarry Buffer.EHFullReader Buffer.EHFullMethods Buffer.EHFullStack Buffer.EHFullPrefix Buffer.EHFullExact Buffer.EHFullStackExact Buffer.EHFullStacking Buffer.EHFullCompleted Buffer.EHFullPartial Buffer.EHFullTrace Buffer.EHFullRuns Buffer.EHFullRetry Buffer.EHFullMon Buffer.EHFullMon3 Buffer.EHFullMonS Buffer.EHFullMonR Buffer.C09FuelSuffices Buffer.EHFuelLaws Buffer.EHFuelSuffices Buffer.EHFuelMon Run.R09 Run.R16 Run.R16Proofs.
 Import ListNotations.
 Open Scope N_scope.
 
@@ -473,25 +473,62 @@ Print Assumptions stack_rule_clause_silent_on_model.
     harness's domain); without a handler there is no Done count to look at and
     the clause fires ([clause1_needs_a_handler], Buffer/EHFullMon.v).  Clauses
     2-7 (the stitching / validity clauses, which compare the observation with
-    the specification functions [stitch_stack] / [buffer_in_use]) are checked on
-    every implementation run but not proved silent on the model: see
+    the specification functions [stitch_stack] / [buffer_in_use]) need the
+    harness's domain ([monitor_silent_on_model] below): see
     [content_carrier_insufficient_for_attaching_readers] for an input outside
-    the harness's domain on which 3, 4, 5 and 7 fire on the model itself. *)
+    it on which 3, 4, 5 and 7 fire on the model itself. *)
 Theorem clause_1_silent_on_model : forall inp,
   q_anss (dec_case16 inp) <> [] -> last (obs_dones (run16 inp)) 0%Z = 1%Z.
 Proof. exact EHFullMon.clause_1_silent_on_model. Qed.
 Print Assumptions clause_1_silent_on_model.
 
+(** [stack_fuel] SUFFICES (Buffer/EHFuelLaws.v, EHFuelSuffices.v): for every
+    buffer, every stack of handler scripts, every digest and hash function and
+    every method whose loop parameters are positive ([good_param]: the chunk
+    size of ToChunkReader and every read size of ToReader is at least 1, as the
+    harness generates them) the model of the stack run with at least
+    [stack_fuel b0 anss] never ends in the out-of-fuel marker and never offers
+    it to a handler.  (The cost of a buffer is 4 + the measure of its script,
+    the cost of an answer that of its replacement, [stack_fuel] four times the
+    cost of the case; the measure of a nested error-handling reader is the
+    measure of the plain reader in use plus the cost of the answers the active
+    levels have left: a read that hands out data decreases the first, a
+    replacement moves more than the measure of the freshly opened reader out of
+    the second.)  This discharges the fuel hypotheses of the theorems above for
+    the fuel [run16] uses: *)
+Theorem stack_fuel_suffices : forall H cfg fuel b0 anss m,
+  (stack_fuel b0 anss <= fuel)%nat -> good_param m = true ->
+  y_err (run_stack H cfg fuel b0 anss m) <> EFuel /\
+  no_fuel_offered (y_logs (run_stack H cfg fuel b0 anss m)).
+Proof. exact run_stack_no_fuel. Qed.
+Print Assumptions stack_fuel_suffices.
+
+(** [completed_streaming_run_is_the_specification] without its fuel hypothesis *)
+Theorem completed_streaming_run_is_the_specification_with_stack_fuel : forall H cfg fuel b0 anss m,
+  streaming m -> anss <> [] ->
+  completed m (y_err (run_stack H cfg fuel b0 anss m)) = true ->
+  wf_case b0 anss -> (stack_fuel b0 anss <= fuel)%nat -> good_param m = true ->
+  exists st,
+    (let '(p0, t0) := piece_of b0 0 in stitch_stack p0 t0 anss)
+      = (st, EEof, map oell (y_logs (run_stack H cfg fuel b0 anss m))) /\
+    y_data (run_stack H cfg fuel b0 anss m) = expected_slice m st /\
+    (bytes_trusted H cfg b0 anss -> valid_bytes H cfg st).
+Proof. exact run_stack_completed_streaming_fuel. Qed.
+Print Assumptions completed_streaming_run_is_the_specification_with_stack_fuel.
+
 (** Clause 3 (a streaming method completed => the stitched stream of the
     specification is valid and the consumer holds exactly its expected slice)
-    is silent on the model for every input of the harness's domain on which the
-    model does not run out of fuel ([dom16], Buffer/EHFullMon3.v: at least one
-    handler; well-formed buffers, i.e. readers that attach EOF to data have
-    scripts of chunks and at most one final Eof; no fuel exhaustion offered to a
-    handler; a positive final error code). *)
-Theorem clause_3_silent_on_model_partial : forall inp, dom16 inp -> ~ In 3%Z (mon16 inp (run16 inp)).
-Proof. exact clause_3_silent_on_model. Qed.
-Print Assumptions clause_3_silent_on_model_partial.
+    is silent on the model for every input with at least one handler,
+    well-formed buffers (readers that attach EOF to data have scripts of chunks
+    and at most one final Eof), positive loop parameters and a positive final
+    error code (Buffer/EHFullMon3.v, EHFuelMon.v). *)
+Theorem clause_3_silent_on_model : forall inp,
+  q_anss (dec_case16 inp) <> [] -> wf_case (q_b0 (dec_case16 inp)) (q_anss (dec_case16 inp)) ->
+  good_param (q_meth (dec_case16 inp)) = true ->
+  (forall x, y_err (out16 inp) = ECode x -> (0 < x)%Z) ->
+  ~ In 3%Z (mon16 inp (run16 inp)).
+Proof. exact clause_3_silent_on_model_fuel. Qed.
+Print Assumptions clause_3_silent_on_model.
 
 (** Every streaming run of a stack, however it ends, against the level-wise
     specification [(st, term, offss) = stitch_stack (piece_of b0 0) anss]
@@ -519,19 +556,20 @@ Theorem every_streaming_run_against_the_specification : forall H cfg fuel b0 ans
 Proof. exact run_stack_streaming_facts. Qed.
 Print Assumptions every_streaming_run_against_the_specification.
 
-(** THE MONITOR IS SILENT ON THE MODEL for every streaming method (IntoWriter,
-    ToChunkReader, ToReader): all clauses of [mon16] (1-5 and 7-10; clause 6
-    concerns the other methods) — [mon16 inp (run16 inp) = []] for every input
-    of [dom16s] (Buffer/EHFullMonS.v): at least one handler; well-formed buffers
-    (readers that attach EOF to data have scripts of chunks and at most one
-    final Eof event, as the harness generates them); an offset the method
-    accepts; the model did not run out of fuel (no EFuel as the result or offered
-    to a handler); a positive final error code.  So on the unchanged tree a
-    monitor alarm on a streaming case can only come from an implementation
-    observation that differs from the model's. *)
-Theorem monitor_silent_on_model_streaming_partial : forall inp, dom16s inp -> mon16 inp (run16 inp) = [].
-Proof. exact mon16_silent_on_model_streaming. Qed.
-Print Assumptions monitor_silent_on_model_streaming_partial.
+(** ... and without the fuel hypotheses, for any fuel of at least [stack_fuel]: *)
+Theorem every_streaming_run_against_the_specification_with_stack_fuel : forall H cfg fuel b0 anss m,
+  streaming m -> anss <> [] -> bad_param (g_size cfg) m = false ->
+  wf_case b0 anss -> (stack_fuel b0 anss <= fuel)%nat -> good_param m = true ->
+  let o := run_stack H cfg fuel b0 anss m in
+  let '(st, term, offss) := (let '(p0, t0) := piece_of b0 0 in stitch_stack p0 t0 anss) in
+  Forall2 lpre (map oell (y_logs o)) offss /\
+  ((y_err o = ECode 3 /\ y_data o = [] /\ term = EEof /\ map oell (y_logs o) = offss) \/
+   (exists out e rest,
+      e <> ENone /\ st = out ++ rest /\ y_data o = dropN (Z.to_N (m_off m)) out /\
+      y_err o = method_err m e /\ (e <> EEof -> out = [] \/ lenN out < g_size cfg) /\
+      ended_run cfg e st term (map oell (y_logs o)) offss)).
+Proof. exact run_stack_streaming_facts_fuel. Qed.
+Print Assumptions every_streaming_run_against_the_specification_with_stack_fuel.
 
 (** Whole-operation retries on a stack (ToByteSlice, ReadAt, CloneCopy through
     nested tryRepeatedly), Buffer/EHFullRetry.v, EHFullMonR.v: if the call
@@ -546,17 +584,27 @@ Theorem whole_operation_retries_on_a_stack : forall H cfg fuel b0 anss m,
 Proof. exact run_stack_retry_facts. Qed.
 Print Assumptions whole_operation_retries_on_a_stack.
 
+Theorem whole_operation_retries_on_a_stack_with_stack_fuel : forall H cfg fuel b0 anss m,
+  retrying m -> anss <> [] -> (stack_fuel b0 anss <= fuel)%nat ->
+  retry_facts H cfg b0 anss m (run_stack H cfg fuel b0 anss m).
+Proof. exact run_stack_retry_facts_fuel. Qed.
+Print Assumptions whole_operation_retries_on_a_stack_with_stack_fuel.
+
 (** THE MONITOR IS SILENT ON THE MODEL, every method, every clause:
-    [mon16 inp (run16 inp) = []] for every input of [dom16all]
-    (Buffer/EHFullMonR.v): at least one handler; well-formed buffers (readers
+    [mon16 inp (run16 inp) = []] for every input of [dom16F]
+    (Buffer/EHFuelMon.v; the streaming methods: Buffer/EHFullMonS.v, the
+    others: EHFullMonR.v): at least one handler; well-formed buffers (readers
     that attach EOF to data have scripts of chunks and at most one final Eof
-    event); parameters the method accepts ([bad_param] = false); the model did
-    not run out of fuel (no EFuel as the result or offered to a handler); a
-    positive final error code.  The unconditional statement is false:
-    [clause1_needs_a_handler], [stitching_clauses_fire_outside_the_domain]. *)
-Theorem monitor_silent_on_model_partial : forall inp, dom16all inp -> mon16 inp (run16 inp) = [].
-Proof. exact mon16_silent_on_model. Qed.
-Print Assumptions monitor_silent_on_model_partial.
+    event); parameters the method accepts ([bad_param] = false); positive loop
+    parameters ([good_param]); a positive final error code.  No hypothesis on
+    fuel: [run16] runs the model on [stack_fuel], which suffices
+    ([stack_fuel_suffices]).  So on the unchanged tree a monitor alarm can only
+    come from an implementation observation that differs from the model's.
+    The unconditional statement is false: [clause1_needs_a_handler],
+    [stitching_clauses_fire_outside_the_domain]. *)
+Theorem monitor_silent_on_model : forall inp, dom16F inp -> mon16 inp (run16 inp) = [].
+Proof. exact mon16_silent_on_model_fuel. Qed.
+Print Assumptions monitor_silent_on_model.
 
 (** Non-vacuity: the original fails after one byte, the replacement is opened
     at offset 1; the consumer gets 1,2,3 once each, validation succeeds, the
@@ -693,23 +741,22 @@ Example c16_stitch_stack_instance :
       [1%nat; 1%nat] [].
 Proof. vm_compute. auto. Qed.
 
-(** Non-vacuity of [monitor_silent_on_model_partial]: an input that meets
-    [dom16all] (two stacked handlers; the inner one gives up, the outer one
+(** Non-vacuity of [monitor_silent_on_model]: an input that meets
+    [dom16F] (two stacked handlers; the inner one gives up, the outer one
     replaces; ToChunkReader at offset 1 in chunks of 1). *)
-Example dom16all_instance :
+Example dom16F_instance :
   let inp := L [A 1; L [A 3; L [A 9; A 9]; A 3];
                 L [A 0; L [L [A 0; L [A 1]]; L [A 1; A 14]; L [A 0; L [A 7]]]];
                 L [L [L [A 1; A 7]]; L [L [A 0; L [A 1; A 0; L [L [A 0; L [A 1; A 2]]; L [A 0; L [A 3]]; L [A 2]]]]]];
                 L [A 3; A 1; A 1; A 0]; L [L [L [A 1; A 2; A 3]; L [A 9; A 9]]]] in
-  dom16all inp /\
+  dom16F inp /\
   run16 inp = L [L [A 2; A 3]; A (-1); L []; L [A 1]; L [L [A 14]; L [A 7]]; L [A 1; A 1]; L []; L [A 1; A 1]].
 Proof.
   cbv zeta. split; [|vm_compute; reflexivity].
-  unfold dom16all, dom16. rsplit.
+  unfold dom16F. rsplit.
   - vm_compute. discriminate.
   - vm_compute. split; [exact I|]. repeat constructor.
-  - vm_compute. repeat constructor; intros Hin; repeat (destruct Hin as [Hin|Hin]; try discriminate); exact Hin.
-  - vm_compute. intros x Hx. discriminate.
-  - vm_compute. discriminate.
   - vm_compute. reflexivity.
+  - vm_compute. reflexivity.
+  - vm_compute. discriminate.
 Qed.
